@@ -62,7 +62,7 @@ class C19a(Obligation):
     pattern = 'P1 (real recurse_find_python_folders_and_files over a stub directory tree with symbolic names)'
     sym_containers = True
     assumptions = (
-        'tree: root/{d1/{.gitignore, sub1/, mod1.py}, d2/{sub2/, mod2.py}} with symbolic names; d2 is either d1 plus a '
+        'tree: root/{d1/{.gitignore, sub1/{deep/}, mod1.py}, d2/{sub2/, mod2.py}} with symbolic names; d2 is either d1 plus a '
         'non-empty tail (shares its text) or an unrelated name; names are non-empty, contain no "/", newline, NUL',
         'the .gitignore has one line of each kind in turn: name, name/, /name, #comment, !negation, glob, empty; '
         'bytes are ASCII (decode is the identity); a trailing-slash entry names a folder',
@@ -88,12 +88,13 @@ class C19a(Obligation):
             ctx.assume(ctx.And(ctx.len(d2) > 0, ctx.Not(d2.startswith(d1))))
         sub1 = ctx.str('sub1', exclude=ex)
         sub2 = ctx.str('sub2', exclude=ex)
+        deep = ctx.str('deep', exclude=ex)
         f1 = ctx.str('mod1', exclude=ex + '.')
         f2 = ctx.str('mod2', exclude=ex + '.')
         entry = ctx.str('entry', exclude=ex)
-        for v in (sub1, sub2, f1, f2, entry):
+        for v in (sub1, sub2, deep, f1, f2, entry):
             ctx.assume(ctx.len(v) > 0)
-        for v in (d1, d2, sub1, sub2):
+        for v in (d1, d2, sub1, sub2, deep):
             ctx.assume(ctx.And(v != '.', v != '..'))
         kind = cfg['kind']
         if kind == 'relative_slash':
@@ -108,6 +109,8 @@ class C19a(Obligation):
         S2 = FolderStub(ctx, [r, d2, sub2], 'sub2')
         root.children = [D1, D2]
         D1.children = [S1]
+        DEEP = FolderStub(ctx, [r, d1, sub1, deep], 'deep')
+        S1.children = [DEEP]
         D2.children = [S2]
         gi = FileStub(ctx, [r, d1, '.gitignore'], 'gitignore', [SymBytes(line)])
         M1 = FileStub(ctx, [r, d1, f1 + '.py'], 'mod1')
@@ -134,10 +137,12 @@ class C19a(Obligation):
         }
         exp['sub1'] = ctx.And(exp['d1'], ctx.Not(builtin_ignored(sub1)),
                               ctx.Not(ctx.And(active, entry == sub1)))
+        exp['deep'] = ctx.And(exp['sub1'], ctx.Not(builtin_ignored(deep)),
+                              ctx.Not(ctx.And(kind in ('relative', 'relative_slash'), entry == deep)))
         exp['sub2'] = ctx.And(exp['d2'], ctx.Not(builtin_ignored(sub2)))        # never touched by d1/.gitignore
         known = {'C19-stringprefix': ctx.And(cfg['d2'] == 'extends_d1', kind in ('relative', 'relative_slash'),
                                               entry == sub2)}
-        for tag in ('d1', 'd2', 'sub1', 'sub2'):
+        for tag in ('d1', 'd2', 'sub1', 'deep', 'sub2'):
             got = tag in folders
             ctx.check(ctx.iff(got, exp[tag]), 'folder %s is walked iff no ignore rule names it' % tag,
                       known=known if tag == 'sub2' else None)
